@@ -140,6 +140,9 @@ func (b *wsBackend) sid(label string) string {
 }
 
 func (b *wsBackend) readLoop(label string, c *websocket.Conn) {
+	if strings.HasPrefix(label, "stall-") {
+		time.Sleep(6500 * time.Millisecond) // a backend that is busy for a while before it reads again
+	}
 	for {
 		typ, data, err := c.ReadMessage()
 		if err != nil {
@@ -334,6 +337,27 @@ func (s *shimClient) call(ep, body string, version string) (status int, respBody
 		return -1, nil
 	}
 	return rec.Code, rec.Body.Bytes()
+}
+
+// abandonedPoll issues a poll whose client goes away after `after` (the request context is cancelled, as
+// net/http does when the connection of a served request is closed) and returns once the handler is done.
+func (s *shimClient) abandonedPoll(sid string, after time.Duration) {
+	ctx, cancel := context.WithCancel(context.Background())
+	req := httptest.NewRequest("POST", "http://svc.example"+s.prefix+"/poll", strings.NewReader(fmt.Sprintf(`{"id":%q}`, sid))).WithContext(ctx)
+	req.Host = "svc.example"
+	req.Header.Set("X-Websocket-Shim-Version", "1")
+	done := make(chan struct{})
+	go func() {
+		defer close(done)
+		defer func() { recover() }()
+		s.h.ServeHTTP(httptest.NewRecorder(), req)
+	}()
+	time.Sleep(after)
+	cancel()
+	select {
+	case <-done:
+	case <-time.After(25 * time.Second): // (the handler may sit out its own 20 s poll timeout)
+	}
 }
 
 func newShim(backendHost string, inject bool) (*shimClient, context.CancelFunc) {
@@ -566,6 +590,92 @@ func wsMsgDriver(a *Args) {
 		cancel()
 		res.Case(strings.Join(shape, ","), map[string]interface{}{"history": shape, "client_msgs": cN, "server_msgs": sN, "injection": inject})
 	}
+	// a backend that does not read for 6.5 s while the whole pipeline towards it is full (kernel buffers, the
+	// message being written and the ten queued ones), and a client that closes meanwhile: what was accepted
+	// is delivered, in order, before the close.  How much the kernel absorbs is measured first, so that the
+	// data post fills the pipeline exactly and still returns at once.
+	{
+		hx.Reset("wsmsg-stall", "wsmsg:backend-stalls-then-close")
+		shim, cancel := newShim(be.host(), false)
+		label := "stall-1"
+		absorbed := loopbackAbsorbs()
+		size := 1 << 20
+		frac := float64(absorbed%(size+16)) / float64(size+16)
+		if frac < 0.2 || frac > 0.8 {
+			size = size * 3 / 4
+		}
+		count := absorbed/(size+16) + 11
+		sid, st := shim.open(be, label, "1")
+		var dataMs, closeMs int64
+		if st == 200 {
+			var batch []map[string]interface{}
+			be.mu.Lock()
+			for n := 1; n <= count; n++ {
+				m := wsMsg{websocket.TextMessage, append([]byte(fmt.Sprintf("%d:", n)), bytes.Repeat([]byte{byte('a' + n%26)}, size-8)...)}
+				be.sentC[label][n] = m
+				batch = append(batch, encodeMsg(sid, m))
+			}
+			be.mu.Unlock()
+			hx.Emit("DataBegin", "sid", sid, "from", 1, "to", count)
+			body, _ := json.Marshal(batch)
+			t0 := time.Now()
+			code, _ := shim.call("data", string(body), "1")
+			dataMs = time.Since(t0).Milliseconds()
+			hx.Emit("Call", "kind", "data", "arg", "valid", "sid", sid, "status", code)
+			hx.Emit("CloseBegin", "sid", sid)
+			t0 = time.Now()
+			code, _ = shim.call("close", fmt.Sprintf(`{"id":%q}`, sid), "1")
+			closeMs = time.Since(t0).Milliseconds()
+			hx.Emit("Call", "kind", "close", "arg", "valid", "sid", sid, "status", code)
+			for i := 0; i < 2400 && !be.sawClose(label); i++ {
+				time.Sleep(5 * time.Millisecond)
+			}
+		}
+		hx.Emit("Final", "panicked", shim.panicked)
+		cancel()
+		stall := map[string]interface{}{"messages": count, "message_bytes": size, "stall_ms": 6500,
+			"kernel_absorbs_bytes": absorbed, "data_post_ms": dataMs, "close_post_ms": closeMs}
+		res.Case("stall:pipeline-full-then-close", stall)
+		res.Extra["stalled_backend_case"] = stall
+	}
+}
+
+// loopbackAbsorbs measures how many bytes a loopback TCP connection takes from a writer whose peer does not
+// read (send buffer plus receive buffer with this kernel's settings).
+func loopbackAbsorbs() int {
+	ln, err := net.Listen("tcp", "127.0.0.1:0")
+	if err != nil {
+		return 0
+	}
+	defer ln.Close()
+	hold := make(chan net.Conn, 1)
+	go func() {
+		c, err := ln.Accept()
+		if err == nil {
+			hold <- c
+		}
+	}()
+	c, err := net.Dial("tcp", ln.Addr().String())
+	if err != nil {
+		return 0
+	}
+	defer c.Close()
+	total := 0
+	chunk := make([]byte, 4096)
+	for total < 64<<20 {
+		c.SetWriteDeadline(time.Now().Add(300 * time.Millisecond))
+		n, err := c.Write(chunk)
+		total += n
+		if err != nil {
+			break
+		}
+	}
+	select {
+	case pc := <-hold:
+		pc.Close()
+	default:
+	}
+	return total
 }
 
 func pollOnce(shim *shimClient, sid string, sent map[int]wsMsg, polled int) int {
@@ -768,6 +878,55 @@ func wsCallsDriver(a *Args) {
 		hx.Emit("Final", "panicked", shim.panicked)
 		cancel()
 		res.Case(strings.Join(seq, ","), map[string]interface{}{"sequence": seq})
+	}
+	// a client that abandons a poll (nothing to deliver, the client goes away): the session stays usable
+	{
+		hx.Reset("wspoll-abandoned", "wspoll:abandoned-by-client")
+		shim, cancel := newShim(be.host(), false)
+		label := "ab-1"
+		sid, st := shim.open(be, label, "1")
+		if st == 200 {
+			stop := make(chan struct{})
+			go func() { shim.abandonedPoll(sid, 150*time.Millisecond); close(stop) }()
+			time.Sleep(400 * time.Millisecond)
+			sent := map[int]wsMsg{}
+			for n := 1; n <= 2; n++ {
+				m := wsMsg{websocket.TextMessage, []byte(fmt.Sprintf("%d:after-abandon", n))}
+				sent[n] = m
+				be.send(label, n, m)
+			}
+			// the abandoned poll may still be parked in the handler and take the messages with it - the
+			// pinned code answers it (to nobody) with them; what is judged is that the session survives:
+			// further calls are answered for a session that exists, and close reaches the backend
+			time.Sleep(50 * time.Millisecond)
+			m := wsMsg{websocket.TextMessage, []byte("1:still-here")}
+			be.mu.Lock()
+			be.sentC[label][1] = m
+			be.mu.Unlock()
+			hx.Emit("DataBegin", "sid", sid, "from", 1, "to", 1)
+			b, _ := json.Marshal([]map[string]interface{}{encodeMsg(sid, m)})
+			code, _ := shim.call("data", string(b), "1")
+			hx.Emit("Call", "kind", "data", "arg", "valid", "sid", sid, "status", code)
+			for i := 0; i < 100 && be.received(label) < 1; i++ {
+				time.Sleep(5 * time.Millisecond)
+			}
+			hx.Emit("CloseBegin", "sid", sid)
+			code, _ = shim.call("close", fmt.Sprintf(`{"id":%q}`, sid), "1")
+			hx.Emit("Call", "kind", "close", "arg", "valid", "sid", sid, "status", code)
+			for i := 0; i < 200 && !be.sawClose(label); i++ {
+				time.Sleep(5 * time.Millisecond)
+			}
+			select {
+			case <-stop:
+			case <-time.After(25 * time.Second):
+			}
+		}
+		shim.mu.Lock()
+		p := shim.panicked
+		shim.mu.Unlock()
+		hx.Emit("Final", "panicked", p)
+		cancel()
+		res.Case("poll:abandoned-by-client", map[string]interface{}{})
 	}
 	// a backend that never reads (it only streams events): closing the session must still close its websocket
 	for r := 0; r < 2; r++ {
